@@ -51,6 +51,7 @@ CHECKS = {
         ],
         "units": [
             {"name": "c02-diff", "bin": "cmdglyph", "build": "inpkg:cmd/glyph", "run": "^TestC02Diff$", "quick": 30000, "thorough": 1500000},
+            {"name": "c02-matrix", "bin": "cmdglyph", "build": "inpkg:cmd/glyph", "run": "^TestC02Matrix$", "enumerate": True, "shards": 14},
         ],
     },
     "C03": {
